@@ -72,6 +72,8 @@ static vh_progress_t *vh_progress = &vh_progress_local;
 static char vh_desc_buf[VH_DESC_MAX];
 static int vh_desc_set = 0;
 static int vh_case_failed = 0;
+static uint64_t vh_asan_reports = 0;
+static inline int vh_finish(void);
 /* optional lazily evaluated describer */
 static void (*vh_describer)(char *buf, size_t buf_size) = NULL;
 
@@ -283,6 +285,14 @@ vh_asan_report_cb(const char *report) {
 		strcpy(rw, "READ");
 	snprintf(clause, sizeof(clause), "asan:%s:%s", kind, rw);
 	vh_fail(clause, "AddressSanitizer report");
+	/* suppress_equal_pcs=0 (so that a second target hitting the same interceptor pc is still
+	 * reported) makes every report cost ~1 ms: give up on this shard after many reports - the
+	 * violations are already on record, the run is marked not exhaustive. */
+	if (++ vh_asan_reports > 20000) {
+		printf("NOTE\tcut\tmore than 20000 AddressSanitizer reports in one shard: enumeration stopped early\n");
+		vh_finish();
+		_exit(0);
+	}
 }
 
 #if defined(__SANITIZE_ADDRESS__)
@@ -299,7 +309,7 @@ const char *
 __asan_default_options(void) {
 	return ("halt_on_error=0:detect_leaks=0:detect_stack_use_after_return=1:"
 	    "allocator_may_return_null=1:print_summary=0:symbolize=0:"
-	    "detect_odr_violation=0:quarantine_size_mb=16");
+	    "detect_odr_violation=0:quarantine_size_mb=16:suppress_equal_pcs=0");
 }
 #endif
 
